@@ -877,6 +877,9 @@ func ReviseForFreeSectors(fc types.V2FileContract, prices HostPrices, newRoot ty
 
 // ReviseForAppendSectors creates a contract revision for the append sectors RPC
 func ReviseForAppendSectors(fc types.V2FileContract, prices HostPrices, root types.Hash256, appended uint64) (types.V2FileContract, Usage, error) {
+	if prices.TipHeight > fc.ExpirationHeight {
+		return fc, Usage{}, fmt.Errorf("contract has expired (expiration height %d, current height %d)", fc.ExpirationHeight, prices.TipHeight)
+	}
 	growth := appended - min(appended, (fc.Capacity-fc.Filesize)/SectorSize)
 	if appended > (math.MaxUint64-fc.Filesize)/SectorSize || growth > (math.MaxUint64-fc.Capacity)/SectorSize {
 		return fc, Usage{}, fmt.Errorf("contract size would overflow (appending %d sectors to %d bytes)", appended, fc.Filesize)
